@@ -519,7 +519,7 @@ def bump_clauses(ox, oy, cx, cy, dx, dy, cross_x, cross_y, sym_tol):
             out[f"dir/{nm}/{where}"] = f"{nm}: true offset {d}, refinement moved by {o} (patch {where} on this axis)"
     e0 = math.hypot(dx, dy)
     e1 = math.hypot(ox - dx, oy - dy)
-    if (cross_x or cross_y) and not e1 <= e0 + 1e-6:
+    if (cross_x or cross_y) and not e1 <= e0 + max(sym_tol):  # same float32-ulp tolerance as the symmetric clause
         out["overshoot/cross"] = f"overshoot: error to the true centre grew from {e0:.4f} to {e1:.4f} (patch crosses the border)"
     return out, e0, e1
 
